@@ -328,6 +328,17 @@ func check(c Case) (o pbt.Outcome) {
 		}
 		hasEmptyAlt := false
 		insufficient := false
+		for _, alt := range alts {
+			for scheme, scopes := range alt {
+				if cr, present := valid[slotOf(sd, scheme)]; present && sd[scheme].(J)["type"] == "oauth2" {
+					for _, s := range asList(scopes) {
+						if !contains(cr.Scopes, s.(string)) {
+							insufficient = true // a good token refused for lack of scope
+						}
+					}
+				}
+			}
+		}
 		var satisfied []J
 		for _, alt := range alts {
 			if len(alt) == 0 {
